@@ -116,12 +116,16 @@ class NP:
         return self._elt(a, b, sym_max)
 
     def _elt(self, a, b, f):
-        if not (has_sym(a) or has_sym(b)):
+        if not (has_sym(_np.asarray(a, dtype=object)) or has_sym(_np.asarray(b, dtype=object))):
             fn = _np.minimum if f is sym_min else _np.maximum
-            try:
-                return fn(_np.asarray(a, dtype=float), _np.asarray(b, dtype=float))
-            except (TypeError, ValueError):
-                pass
+            for conv in (lambda v: v, lambda v: _np.asarray(v, dtype=float)):
+                # numpy's own result first (integer inputs stay integers: the result may be used as an index); object arrays of plain floats second
+                try:
+                    r = fn(conv(a), conv(b))
+                    if getattr(r, 'dtype', None) != object:
+                        return r
+                except (TypeError, ValueError):
+                    pass
         a = _np.asarray(a, dtype=object)
         b = _np.asarray(b, dtype=object)
         bb = _np.broadcast(a, b)
